@@ -5,6 +5,7 @@ import (
 	"encoding/base64"
 	"encoding/json"
 	"fmt"
+	"io"
 	"net/http"
 	"os"
 	"path/filepath"
@@ -318,6 +319,51 @@ func runC14(c c14Case) error {
 		}
 		if staleErr != nil {
 			return staleErr
+		}
+	}
+	// a body file names the bytes it holds when the target is decoded: a file that is rewritten between two
+	// targets referring to it (payloads streamed into a lazily read list) gives each target its own bytes
+	{
+		shared := filepath.Join(dir, "shared-body")
+		pr, pw := io.Pipe()
+		tr := vegeta.NewHTTPTargeter(pr, nil, nil)
+		go func() {
+			defer pw.Close()
+			for i := 0; i < 3; i++ {
+				fmt.Fprintf(pw, "POST http://shared.test/%d\n@%s\n\n", i, shared)
+			}
+		}()
+		for i := 0; i < 3; i++ {
+			want := fmt.Sprintf("{\"seq\":%d}", i)
+			if err := os.WriteFile(shared, []byte(want), 0o644); err != nil {
+				return err
+			}
+			var t vegeta.Target
+			if err := tr(&t); err != nil {
+				return fmt.Errorf("http: three targets sharing one @file that is rewritten before each is decoded: target %d: %v", i, err)
+			}
+			if string(t.Body) != want {
+				return fmt.Errorf("http: three targets sharing one @file that is rewritten before each is decoded: target %d has body %q, the file holds %q", i, t.Body, want)
+			}
+		}
+		io.Copy(io.Discard, pr)
+	}
+	// the caller may decode into one Target variable again and again and keep copies of what it drew (http format;
+	// the JSON targeter documents no such thing: it adds to a header map it is handed)
+	{
+		tr := vegeta.NewHTTPTargeter(strings.NewReader(doc), append([]byte(nil), c.DefaultBody...), c14Defaults(c))
+		var t vegeta.Target
+		var kept, copies []vegeta.Target
+		for i := range c.Targets {
+			if err := tr(&t); err != nil {
+				return fmt.Errorf("http, one Target variable reused for every draw: target %d: %v", i, err)
+			}
+			kept, copies = append(kept, t), append(copies, c14Clone(t))
+			for j := range kept {
+				if d := c14TargetDiff(copies[j], kept[j], nil); d != "" {
+					return fmt.Errorf("http, one Target variable reused for every draw: decoding target %d changed the copy kept of target %d: %s", i, j, d)
+				}
+			}
 		}
 	}
 	// JSON target encoder round trip (no defaults)
